@@ -24,18 +24,53 @@ Definition bytes := list N.
 Fixpoint le_val (l : bytes) : N :=
   match l with [] => 0 | b :: t => b + 256 * le_val t end.
 
-(* split exactly k elements off the front; None if too short (walks only k cells) *)
-Fixpoint splitn {A} (k : nat) (l : list A) : option (list A * list A) :=
+(* [take_rev k l acc] = rev (first k elements of l) ++ acc  (all of l if shorter) ; tail recursive *)
+Fixpoint take_rev {A} (k : nat) (l acc : list A) : list A :=
   match k with
-  | O => Some ([], l)
+  | O => acc
+  | S k' => match l with [] => acc | x :: t => take_rev k' t (x :: acc) end
+  end.
+(* first k elements, tail recursive (two passes) *)
+Definition take {A} (k : nat) (l : list A) : list A := rev' (take_rev k l []).
+
+(* split exactly k elements off the front; None if too short (walks only k cells; tail recursive) *)
+Fixpoint splitn_acc {A} (k : nat) (l acc : list A) : option (list A * list A) :=
+  match k with
+  | O => Some (rev' acc, l)
   | S k' => match l with
             | [] => None
-            | x :: t => match splitn k' t with
-                        | Some (a, b) => Some (x :: a, b)
-                        | None => None
-                        end
+            | x :: t => splitn_acc k' t (x :: acc)
             end
   end.
+Definition splitn {A} (k : nat) (l : list A) : option (list A * list A) := splitn_acc k l [].
+
+(* N-indexed variants for data-dependent sizes (structural on the list, never builds a Peano number) *)
+Fixpoint splitN_acc {A} (l : list A) (k : N) (acc : list A) : option (list A * list A) :=
+  if k =? 0 then Some (rev' acc, l)
+  else match l with
+       | [] => None
+       | x :: t => splitN_acc t (N.pred k) (x :: acc)
+       end.
+Definition splitN {A} (k : N) (l : list A) : option (list A * list A) := splitN_acc l k [].
+
+(* rev (first k elements of l) ++ acc *)
+Fixpoint takeN_rev {A} (l : list A) (k : N) (acc : list A) : list A :=
+  if k =? 0 then acc
+  else match l with
+       | [] => acc
+       | x :: t => takeN_rev t (N.pred k) (x :: acc)
+       end.
+Definition takeN {A} (k : N) (l : list A) : list A := rev' (takeN_rev l k []).
+
+Fixpoint skipN {A} (l : list A) (k : N) : list A :=
+  if k =? 0 then l
+  else match l with
+       | [] => []
+       | _ :: t => skipN t (N.pred k)
+       end.
+
+(* tail-recursive append *)
+Definition app_tr {A} (a b : list A) : list A := rev_append (rev' a) b.
 
 Definition read_le (k : nat) (l : bytes) : option (N * bytes) :=
   match splitn k l with Some (a, b) => Some (le_val a, b) | None => None end.
@@ -44,8 +79,8 @@ Fixpoint lenN_acc {A} (l : list A) (acc : N) : N :=
   match l with [] => acc | _ :: t => lenN_acc t (N.succ acc) end.
 Definition lenN {A} (l : list A) : N := lenN_acc l 0.
 
-Fixpoint repeatN {A} (x : A) (n : nat) (acc : list A) : list A :=
-  match n with O => acc | S n' => repeatN x n' (x :: acc) end.
+(* n copies of x in front of acc *)
+Definition repeatN {A} (x : A) (n : N) (acc : list A) : list A := N.iter n (cons x) acc.
 
 (* tail-recursive reverse-append, used everywhere to keep OCaml stacks flat *)
 Definition rev_app {A} (l acc : list A) : list A := rev_append l acc.
